@@ -346,16 +346,16 @@ class Union:
         if other is Union:
             return Order.LESS
         others = self._parts(other)
+        # Nested unions are compared through their flattened members
+        mine = [p for t in self.types for p in self._parts(t)]
         # More general: each part of other is within one of the members
         more = all(
-            any(
-                typeorder(t, o) in (Order.MORE, Order.SAME) for t in self.types
-            )
+            any(typeorder(t, o) in (Order.MORE, Order.SAME) for t in mine)
             for o in others
         )
         # More specific: every member is within other
         less = all(
-            typeorder(t, other) in (Order.LESS, Order.SAME) for t in self.types
+            typeorder(t, other) in (Order.LESS, Order.SAME) for t in mine
         )
         if more and less:
             # Equivalent: a union still counts as more general than one of
@@ -432,16 +432,16 @@ class Intersection:
         if other is Intersection:
             return Order.LESS
         others = self._parts(other)
+        # Nested intersections are compared through their flattened members
+        mine = [p for t in self.types for p in self._parts(t)]
         # More specific: one of the members is within each part of other
         less = all(
-            any(
-                typeorder(t, o) in (Order.LESS, Order.SAME) for t in self.types
-            )
+            any(typeorder(t, o) in (Order.LESS, Order.SAME) for t in mine)
             for o in others
         )
         # More general: other is within every member
         more = all(
-            typeorder(t, other) in (Order.MORE, Order.SAME) for t in self.types
+            typeorder(t, other) in (Order.MORE, Order.SAME) for t in mine
         )
         if more and less:
             # Equivalent: an intersection still counts as more specific than
